@@ -169,10 +169,10 @@ def run(ctx):
     for n in ([3, 4, 5] if not thorough else [2, 3, 4, 5, 6]):
         inst.append(("circuit", [n], CircuitProblem(n), lambda s, n=n: v_circuit(n, s), KNOWN["circuit"].get(n)))
     # quasigroups (idempotent Latin squares with their two dual models; QG5), both settings of symmetry breaking
-    for n in ([2, 3, 4, 5] if not thorough else [1, 2, 3, 4, 5, 6]):
+    for n in ([2, 3, 4, 5] if not thorough else [1, 2, 3, 4, 5]):
         for sb in (0, 1):
             inst.append(("quasigroup", [n, sb], QuasigroupProblem(n, bool(sb)), lambda s, n=n: v_quasigroup(n, s), None))
-    for n in ([3, 5] if not thorough else [3, 4, 5, 6, 7]):
+    for n in ([3, 5] if not thorough else [3, 4, 5, 6]):
         for sb in (0, 1):
             inst.append(("quasigroup5", [n, sb], Quasigroup5Problem(n, bool(sb)), lambda s, n=n: v_quasigroup(n, s, True), None))
     for n in ([2, 3] if not thorough else [1, 2, 3, 4]):
@@ -184,8 +184,15 @@ def run(ctx):
             inst.append(("sports_tournament_scheduling", [n, sb], SportsTournamentSchedulingProblem(n, bool(sb)), lambda s, n=n: v_sports(n, s), None))
     for (v_, b_, r_, k_, l_) in ([(3, 3, 2, 2, 1), (4, 6, 3, 2, 1)] if not thorough else [(3, 3, 2, 2, 1), (4, 6, 3, 2, 1), (6, 10, 5, 3, 2), (7, 7, 3, 3, 1)]):
         for sb in (0, 1):
+            if sb == 0 and v_ * b_ > 24:
+                continue  # without symmetry breaking every row/column permutation is a solution: far too many to enumerate
             inst.append(("bibd", [v_, b_, r_, k_, l_, sb], BIBDProblem(v_, b_, r_, k_, l_, bool(sb)),
                          lambda s, a=(v_, b_, r_, k_, l_): v_bibd(*a, s), None))
+    # parameter tuples that violate b*k = v*r: no design exists, the model must have no solution (and may not invent one)
+    for (v_, b_, r_, k_, l_) in ([(2, 3, 2, 1, 1), (3, 4, 2, 2, 1)] if not thorough else [(2, 3, 2, 1, 1), (3, 4, 2, 2, 1), (3, 2, 2, 2, 1), (4, 4, 3, 2, 1), (2, 4, 3, 1, 2)]):
+        for sb in (0, 1):
+            inst.append(("bibd", [v_, b_, r_, k_, l_, sb], BIBDProblem(v_, b_, r_, k_, l_, bool(sb)),
+                         lambda s, a=(v_, b_, r_, k_, l_): v_bibd(*a, s), 0 if b_ * k_ != v_ * r_ else None))
     inst.append(("sudoku", [x for r_ in SUDOKU_EASY for x in r_], SudokuProblem(SUDOKU_EASY), lambda s: v_sudoku(SUDOKU_EASY, s), 1))
     if thorough:
         inst.append(("sudoku", [x for r_ in SUDOKU for x in r_], SudokuProblem(SUDOKU), lambda s: v_sudoku(SUDOKU, s), 1))
@@ -195,6 +202,10 @@ def run(ctx):
             inst.append(("golomb", [n, sb], GolombProblem(n, bool(sb)), None, None))
     for n in (6, 8):
         inst.append(("sports_tournament_scheduling", [n, 1], SportsTournamentSchedulingProblem(n, True), None, None))
+    for n in (6, 7, 8):  # larger quasigroups: constructor comparison only (their enumeration is far too long under interpretation)
+        for sb in (0, 1):
+            inst.append(("quasigroup", [n, sb], QuasigroupProblem(n, bool(sb)), None, None))
+            inst.append(("quasigroup5", [n, sb], Quasigroup5Problem(n, bool(sb)), None, None))
     # the Lean model of every instance must be the arrays the Python constructor posts (the translation tie for models)
     reqs, cases = [], []
     for name, args, p, val, exp in inst:
@@ -203,8 +214,8 @@ def run(ctx):
         if val is None:
             continue  # constructor comparison only
         heavy = name in ("quasigroup", "quasigroup5") and args[0] >= 5
-        for cons in ((0,) if heavy and not thorough else (0, 1)):
-            for (vh, dh) in (((0, 0),) if heavy else ((0, 0), (1, 3))) if not thorough else ((0, 0), (1, 3), (2, 1), (1, 2)):
+        for cons in ((0,) if heavy else (0, 1)):
+            for (vh, dh) in (((0, 0),) if heavy else (((0, 0), (1, 3)) if not thorough else ((0, 0), (1, 3), (2, 1), (1, 2)))):
                 cases.append(({"op": "solve", "problem": prob.to_json(), "cfg": ce.cfg_json(nv.Cfg(cons=cons, varh=vh, domh=dh))}, name, args, val, exp))
     for extra_name, extra_args, extra_p in (("alpha", [], AlphaProblem()), ("donald", [], DonaldProblem()),
                                              ("knapsack", [3, 4, 5, 6, 3, 2, 4, 6], KnapsackProblem([4, 5, 6], [3, 2, 4], 6)),
@@ -261,6 +272,9 @@ def run(ctx):
         report.cov["evaluations"] += 1
         key = (name, tuple(args))
         replay = {"model": name, "args": args, "cfg": c["cfg"]}
+        if r[0] == "skipped":
+            report.count("not_evaluated", name)
+            continue
         if r[0] != "ok":
             viol.append(dict(replay, kind="example", detail=f"{r[0]}: {r[1]}"))
             continue
